@@ -385,8 +385,11 @@ func evalText(c Case, trace bool) verdict {
 	return w.finish(nil, nonTrivial)
 }
 
+// genSteps draws a program as three concatenated slices (rapid's slice length
+// is geometric with a small mean; three segments give a mean of ~15 steps while
+// every segment still shrinks to nothing).
 func genSteps(maxSteps int, ops []string, maxA, maxB, maxC, maxD int) *rapid.Generator[[]Step] {
-	return rapid.SliceOfN(rapid.Custom(func(t *rapid.T) Step {
+	step := rapid.Custom(func(t *rapid.T) Step {
 		return Step{
 			Op: rapid.SampledFrom(ops).Draw(t, "op"),
 			R:  rapid.IntRange(0, 1).Draw(t, "r"),
@@ -395,7 +398,13 @@ func genSteps(maxSteps int, ops []string, maxA, maxB, maxC, maxD int) *rapid.Gen
 			C:  rapid.IntRange(0, maxC).Draw(t, "c"),
 			D:  rapid.IntRange(0, maxD).Draw(t, "d"),
 		}
-	}), 1, maxSteps)
+	})
+	seg := rapid.SliceOfN(step, 0, maxSteps/3)
+	return rapid.Custom(func(t *rapid.T) []Step {
+		out := append([]Step{}, seg.Draw(t, "s1")...)
+		out = append(out, seg.Draw(t, "s2")...)
+		return append(out, seg.Draw(t, "s3")...)
+	})
 }
 
 func genText() *rapid.Generator[Case] {
